@@ -33,6 +33,8 @@ type process struct {
 	pid      *PID
 	restarts int32
 	mbuffer  []Envelope
+	// dead is set once cleanup has run; a dead process never reopens its inbox.
+	dead bool
 }
 
 func newProcess(e *Engine, opts Opts) *process {
@@ -133,6 +135,11 @@ func (p *process) Start() {
 		p.Invoke(p.mbuffer)
 		p.mbuffer = nil
 	}
+	// the replayed messages may have stopped the actor (poison pill, restart
+	// budget spent): its inbox must stay closed then.
+	if p.dead {
+		return
+	}
 
 	p.inbox.Start(p)
 }
@@ -187,6 +194,7 @@ func (p *process) cleanup(cancel context.CancelFunc) {
 	if cancel != nil {
 		defer cancel()
 	}
+	p.dead = true
 
 	if p.context.parentCtx != nil {
 		p.context.parentCtx.children.Delete(p.pid.ID)
